@@ -32,7 +32,7 @@ theorem gen_matches :
       ("ExecuteContext", "p.interp.checkCtx = ctx != context.Background() && ctx != context.TODO()"),
       ("ExecuteContext", "p.interp.ctx = ctx"),
       ("ExecuteContext", "p.interp.ctxDone = ctx.Done()"),
-      ("ExecuteContext", "p.interp.ctxOps = 0"),
+      ("ExecuteContext", "p.interp.ctxOps = 0"),        -- all four unconditional (no `conditional: ` prefix)
       ("checkContext", "p.ctxOps++"),
       ("checkContext", "p.ctxOps = 0")] ∧
     C15Poll.pollCallSites = [
@@ -77,6 +77,32 @@ without the poll (plain `Execute`) makes. -/
 theorem never_cancelled (ds : List D) (c : Nat) :
     run N none ds 0 c ⟨0, 0⟩ = .finished (counterAfter N ds.length c) (runNoPoll ds ⟨0, 0⟩) :=
   never_cancelled_aux N ds 0 c ⟨0, 0⟩
+
+/-- **ExecuteContext's entry code sets all context state from its argument**: nothing of what the previous call left
+(a cancelled or expired context, a half-way counter, checkCtx) survives. -/
+theorem entry_sets_all (cancellable : Bool) (t : Option Nat) (s₁ s₂ : CtxState) :
+    entry (.executeContext cancellable t) s₁ = entry (.executeContext cancellable t) s₂ := rfl
+
+/-- … hence what any call shows does not depend on the calls made before it on the same Interpreter -/
+theorem call_independent_of_history (k : Call) (s₁ s₂ : CtxState) (tr : List D) :
+    callOutcome N k s₁ tr = callOutcome N k s₂ tr := by
+  cases k with
+  | execute => simp [callOutcome, entry]
+  | executeContext c t => rfl
+
+/-- `ExecuteContext(context.Background())` / `(context.TODO())` is `Execute`, also right after a cancelled call -/
+theorem background_eq_execute (t : Option Nat) (s s' : CtxState) (tr : List D) :
+    callOutcome N (.executeContext false t) s tr = callOutcome N .execute s' tr := by
+  simp [callOutcome, entry]
+
+/-- `ExecuteContext` with a cancellable context that is never cancelled is `Execute`, also right after a cancelled call -/
+theorem live_never_cancelled_eq_execute (s s' : CtxState) (tr : List D) :
+    callOutcome N (.executeContext true none) s tr = callOutcome N .execute s' tr := by
+  simp [callOutcome, entry, never_cancelled_aux, observe]
+
+/-- Non-vacuity: the state a cancelled call leaves behind is not the initial one, and a stale `checkCtx` / `cancelAt`
+would change what the next run shows (the C15-m3 scenario) -/
+example : run 50 (some 0) (loopTrace 2 8) 0 0 ⟨0, 0⟩ ≠ run 50 none (loopTrace 2 8) 0 0 ⟨0, 0⟩ := by decide
 
 /-- Non-vacuity (with a small interval so that the kernel can evaluate it): the loop shape cancelled in its 2nd iteration
 under an interval of 50 is stopped by the poll of dispatch 49 after 5 tick() calls, 3 of them after the cancellation;
